@@ -431,6 +431,7 @@ static volatile sig_atomic_t vh_armed = 0;
 static volatile int vh_fault_kind = 0;  /* 1 guard overrun, 2 other crash, 3 assert/abort, 4 alarm */
 static volatile int vh_fault_slot = -1;
 static volatile long vh_fault_off = 0;
+static void *volatile vh_fault_addr = NULL; /* faulting address of the last SIGSEGV / SIGBUS */
 static char vh_fault_msg[256];
 
 static void vh_sig(int sig, siginfo_t *si, void *uc) {
@@ -453,6 +454,7 @@ static void vh_sig(int sig, siginfo_t *si, void *uc) {
         vh_fault_kind = 3;
     } else if (sig == SIGSEGV || sig == SIGBUS) {
         uint8_t *a = (uint8_t *)si->si_addr;
+        vh_fault_addr = a;
         for (int i = 0; i < VH_MAXGB; i++) {
             if (vh_gb[i].map && a >= vh_gb[i].guard &&
                 a < vh_gb[i].guard + VH_GUARD_BYTES) {
